@@ -996,6 +996,8 @@ func replayCase(sub string, raw json.RawMessage) string {
 			return "bad replay: " + err.Error()
 		}
 		return checkArith(c)
+	case "iterated":
+		return replayIter(raw)
 	case "nary":
 		var c naryCase
 		if err := json.Unmarshal(raw, &c); err != nil {
@@ -1156,6 +1158,17 @@ func TestC10(t *testing.T) {
 		rec.Sample(c)
 		if msg := checkNary(c); msg != "" {
 			t.Fatalf("%s", rec.Fail("nary", c, "%s", msg))
+		}
+	})
+
+	rec.Rapid(t, "iterated", rec.Scale(30000, 1500000), func(t *rapid.T) {
+		c := drawIter(t)
+		rec.Eval()
+		rec.NT("iterated/" + fmt.Sprint(c))
+		rec.Class("iterated/" + c.Form)
+		rec.Sample(c)
+		if msg := checkIter(c); msg != "" {
+			t.Fatalf("%s", rec.Fail("iterated", c, "%s", msg))
 		}
 	})
 
